@@ -290,6 +290,15 @@ Definition rq_rep_sized (rep : fec -> N -> list N -> N -> N -> list (list N)) (c
   forall s, s < n ->
     Forall (fun d => lenN d = c_e c) (rep RaptorQ s (blk_buf c content s) (nominal_syms al as_ nal s) (c_parity c)).
 
+(* Raptor (D47: the receiver discards a symbol longer than E): the encoding symbols of the blocks of the object - the
+   source symbols the raptor-code crate cuts (pieces of at most ceil(block length / k) <= E bytes) and its repair
+   symbols (of that size too) - have at most E bytes; needed for fq_sized_pkt only *)
+Definition rp_syms_sized (rep : fec -> N -> list N -> N -> N -> list (list N)) (rsrc : list N -> N -> option (list (list N)))
+  (c : ecfg) (content : list N) : Prop :=
+  c_fec c = Raptor ->
+  let '(al, as_, nal, n) := block_partitioning (c_b c) (c_tlen c) (c_e c) in
+  forall s, s < n -> Forall (fun d => lenN d <= c_e c) (blk_syms rep rsrc c content s).
+
 Lemma parse_rq_pidb s i : s < 256 -> i < 16777216 -> parse_pid FRaptorQ (rq_pidb s i) = Some (s, i, None).
 Proof.
   intros Hs Hi. unfold parse_pid, rq_pidb. cbn [length Nat.eqb]. unfold be_val. cbn [fold_left].
@@ -436,7 +445,8 @@ Section BridgeFQ.
     Forall (fun q => fq_genuine_pkt oti content enc q = true) (map wire ps)
     /\ map (rs_pid oti) (map wire ps) = map (fun p => (p_sbn p, p_esi p)) ps
     /\ map a_close_obj (map wire ps) = map p_close ps
-    /\ (rq_rep_sized rep c content -> Forall (fun q => fq_sized_pkt oti q = true) (map wire ps)).
+    /\ (rq_rep_sized rep c content -> rp_syms_sized rep rsrc c content ->
+        Forall (fun q => fq_sized_pkt oti q = true) (map wire ps)).
   Proof.
     intros H. unfold P_C08_fq_exact in H. rewrite Ebp in H.
     assert (B : forall p, In p ps -> p_sbn p < n /\ p_esi p < lenN (blk_syms rep rsrc c content (p_sbn p))
@@ -453,15 +463,19 @@ Section BridgeFQ.
     - apply Forall_forall. intros q Hq. apply in_map_iff in Hq. destruct Hq as (p & <- & Hp). apply (A p Hp).
     - rewrite map_map. apply map_ext_in. intros p Hp. apply (A p Hp).
     - rewrite map_map. apply map_ext_in. intros p Hp. apply (A p Hp).
-    - intros Hsz. apply Forall_forall. intros q Hq. apply in_map_iff in Hq. destruct Hq as (p & <- & Hp).
+    - intros Hsz Hpz. apply Forall_forall. intros q Hq. apply in_map_iff in Hq. destruct Hq as (p & <- & Hp).
       unfold fq_sized_pkt. destruct Hoti as (F & E1 & _). rewrite F.
       destruct (A p Hp) as (_ & _ & _ & Epl). destruct (B p Hp) as (B1 & B2 & B3).
       pose proof (fun Ef => rq_syms_sized (p_sbn p) Ef Hsz B1) as Z.
+      unfold rp_syms_sized in Hpz. rewrite Ebp in Hpz.
       pose proof Hfq as Hfq'.
-      destruct (c_fec c) eqn:Ef; try discriminate Hfq'; cbn [rfec_of_fq]; [|reflexivity].
-      specialize (Z eq_refl).
-      rewrite Epl, B3, E1. apply N.eqb_eq. rewrite Forall_forall in Z.
-      change (lenN_ ?x) with (lenN x). apply Z. unfold rx_enc. apply nth_In. unfold lenN in B2. lia.
+      destruct (c_fec c) eqn:Ef; try discriminate Hfq'; cbn [rfec_of_fq].
+      + specialize (Z eq_refl).
+        rewrite Epl, B3, E1. apply N.eqb_eq. rewrite Forall_forall in Z.
+        change (lenN_ ?x) with (lenN x). apply Z. unfold rx_enc. apply nth_In. unfold lenN in B2. lia.
+      + specialize (Hpz eq_refl (p_sbn p) B1).
+        rewrite Epl, B3, E1. apply N.leb_le. rewrite Forall_forall in Hpz.
+        change (lenN_ ?x) with (lenN x). apply Hpz. unfold rx_enc. apply nth_In. unfold lenN in B2. lia.
   Qed.
 End BridgeFQ.
 Unset Default Proof Using.
@@ -489,6 +503,7 @@ Section ComposeFQ.
   Hypothesis Hreplen : rep_len_ok rep.
   Hypothesis Hrepsz : rq_rep_sized rep c content.
   Hypothesis Hrsrc : raptor_src_ok raptor_src c content.
+  Hypothesis Hrpsz : rp_syms_sized rep raptor_src c content.
   (* wire: E is a u16 *)
   Hypothesis He16 : c_e c < 65536.
   (* receiver: the FDT entry describes the object (scheme-specific information present and in the decoder's range:
@@ -565,7 +580,7 @@ Section ComposeFQ.
     /\ (forall l, incl wire_pkts_fq l -> fq_recoverable oti (lenN_ content) l = true)
     /\ exists body lst, wire_pkts_fq = body ++ [lst] /\ Forall (fun q => a_close_obj q = false) body
                         /\ a_close_obj lst = c_closable c.
-  Proof using Hfq Hacc Hlen Hl Hw Hreplen Hrepsz Hrsrc Hoti.
+  Proof using Hfq Hacc Hlen Hl Hw Hreplen Hrepsz Hrsrc Hrpsz Hoti.
     pose proof (accepts_esi_fits_fq c Hfq Hacc Hl) as Hesi.
     pose proof (fq_transfer_exact rep raptor_src c content Hfq Hl Hacc Hlen Hw Hrsrc) as X. cbv zeta in X.
     fold (transfer_pkts rep raptor_src c content) in X.
@@ -577,7 +592,7 @@ Section ComposeFQ.
     destruct (bridge_all_fq rep raptor_src c content oti toi al as_ nal n Hfq Hacc Hlen Hl Hoti Hreplen Hesi Ebp Hsrc _ Hex)
       as (G & Epid & Ecl & Z).
     fold wire_pkts_fq in G, Epid, Ecl, Z.
-    split; [exact G|]. split; [exact (Z Hrepsz)|]. split; [exact Epid|]. rewrite <- Epid in Cov. split.
+    split; [exact G|]. split; [exact (Z Hrepsz Hrpsz)|]. split; [exact Epid|]. rewrite <- Epid in Cov. split.
     - intros l I. apply (fq_covered_recoverable _ _ _ _ _ _ _ Hpart).
       intros s i Hs Hi. apply (incl_map (rs_pid oti) I). apply Cov; assumption.
     - exists (map (to_apkt_fq (c_fec c) toi) body), (to_apkt_fq (c_fec c) toi lst). split; [|split].
@@ -821,6 +836,7 @@ Proof.
     destruct (block_partitioning _ _ _) as [[[al as_] nal] n]. intros s _. cbn [exq_cfg c_parity c_e].
     repeat constructor.
   - intros H. discriminate H.
+  - intros H. discriminate H.
   - reflexivity.
   - exact M.
   - vm_compute. reflexivity.
@@ -842,6 +858,15 @@ Proof.
     with (4, 4, 0, 2) by (vm_compute; reflexivity).
   intros s Hs. eexists. split; [reflexivity|].
   destruct (two_cases s Hs) as [-> | ->]; vm_compute; split; reflexivity.
+Qed.
+
+Lemma exp_syms_sized w closable debug : rp_syms_sized junk_rep (chunk_rsrc 2) (exp_cfg_gen w closable debug) ex16.
+Proof.
+  intros _. replace (block_partitioning (c_b (exp_cfg_gen w closable debug)) (c_tlen (exp_cfg_gen w closable debug))
+                                        (c_e (exp_cfg_gen w closable debug)))
+    with (4, 4, 0, 2) by (vm_compute; reflexivity).
+  intros s Hs. apply Forall_forall. intros d Hd. apply N.leb_le. revert d Hd. apply forallb_forall.
+  destruct (two_cases s Hs) as [-> | ->]; vm_compute; reflexivity.
 Qed.
 
 Lemma exp_enc_sys w closable debug s i : s < nb_blocks_of exp16_oti (lenN_ ex16) ->
@@ -883,6 +908,7 @@ Proof.
   - exact junk_rep_len.
   - intros H. discriminate H.
   - exact (exp_raptor_src_ok 2 closable true).
+  - exact (exp_syms_sized 2 closable true).
   - reflexivity.
   - repeat split.
   - vm_compute. reflexivity.
@@ -945,6 +971,17 @@ Example rq_rep_sized_refuted :
   map (fq_sized_pkt exq_oti) (wire_pkts_fq short_rep no_rsrc (exq_cfg true) exr_content 7) = [true; true; true; false; false]
   /\ summary 7 (receive env_sys 1 exq_files None 7 1000 (wire_pkts_fq short_rep no_rsrc (exq_cfg true) exr_content 7))
      = (Completed, [CallOpen true; CallWrite [1; 2; 3; 4] true; CallWrite [5] true; CallComplete]).
+Proof. vm_compute. repeat split. Qed.
+
+(* rp_syms_sized (D47) is needed for fq_sized_pkt only: Raptor, E = 2, 3-byte repair symbols: the two repair packets are
+   not well sized; the block decoder discards them (longer than E) and the object is delivered all the same by its
+   source symbols *)
+Definition long_rep : fec -> N -> list N -> N -> N -> list (list N) := fun _ _ _ _ p => repeat [7; 7; 7] (N.to_nat p).
+Example rp_syms_sized_refuted :
+  map (fq_sized_pkt exp16_oti) (wire_pkts_fq long_rep (chunk_rsrc 2) (exp_cfg true) ex16 7)
+  = [true; true; true; true; true; true; true; true; false; false]
+  /\ summary 7 (receive env_sys 1 exp16_files None 7 1000 (wire_pkts_fq long_rep (chunk_rsrc 2) (exp_cfg true) ex16 7))
+     = (Completed, [CallOpen true; CallWrite [1; 2; 3; 4; 5; 6; 7; 8] true; CallWrite [9; 10; 11; 12; 13; 14; 15; 16] true; CallComplete]).
 Proof. vm_compute. repeat split. Qed.
 
 (* ================= 6. the session level: a RaptorQ / Raptor object in a No-Code session ================= *)
@@ -1104,7 +1141,8 @@ Definition sender_ok_fq rep raptor_src (cfg : fdt_cfg) (now : Z) (m : fmeta) (co
   /\ FdtInst.m_tlen m = lenN content /\ 0 < FdtInst.m_tlen m /\ m_toi m <> 0 /\ FdtInst.m_clen m < FdtRecv.U64
   /\ time_in_era now /\ spec_expires now (c_dur cfg) < 4294967296 /\ meta_ok cfg now m
   /\ rep_len_ok rep /\ rq_rep_sized rep (obj_ecfg_fq cfg m 1 false false) content
-  /\ raptor_src_ok raptor_src (obj_ecfg_fq cfg m 1 false false) content.
+  /\ raptor_src_ok raptor_src (obj_ecfg_fq cfg m 1 false false) content
+  /\ rp_syms_sized rep raptor_src (obj_ecfg_fq cfg m 1 false false) content.
 
 (* the receiver side: the environment of fq_recoverable_delivers; the decoder of every block can be created with the OTI
    of the File element (fq_blocks_ok: Al, N in the raptorq crate's range, k within the decoder's limit); THE DECODER
@@ -1175,7 +1213,7 @@ Section ComposeSessFQ.
     /\ (forall pre, fq_recoverable oti L (pre ++ w) = true)
     /\ exists body lst, w = body ++ [lst] /\ Forall (fun q => a_close_obj q = false) body /\ a_close_obj lst = closable.
   Proof.
-    intros Hw. destruct HS as (_ & _ & _ & Ho & Hwo & _ & Hacc & Hlen & Hl & _ & _ & _ & _ & _ & Hrl & Hrz & Hrs).
+    intros Hw. destruct HS as (_ & _ & _ & Ho & Hwo & _ & Hacc & Hlen & Hl & _ & _ & _ & _ & _ & Hrl & Hrz & Hrs & Hrp).
     destruct (used_oti_fq cfg m Ho Hwo Hl Hacc) as (U1 & U2 & U3 & U4 & _).
     set (c := obj_ecfg_fq cfg m window closable debug).
     assert (Hfq : is_fq (c_fec c) = true) by (apply is_fq_id; exact Ho).
@@ -1185,11 +1223,12 @@ Section ComposeSessFQ.
     assert (Hw' : (1 <= c_window c)%nat) by exact Hw.
     assert (Hrz' : rq_rep_sized rep c content) by exact Hrz.
     assert (Hrs' : raptor_src_ok raptor_src c content) by exact Hrs.
+    assert (Hrp' : rp_syms_sized rep raptor_src c content) by exact Hrp.
     assert (He16 : c_e c < 65536) by (destruct Hwo as (_ & _ & _ & He & _); exact He).
     assert (Hoti : oti_matches_fq c oti).
     { unfold oti_matches_fq, obj_roti_fq, fq_roti. cbn [ro_fec ro_e ro_b]. rewrite U1, U2, U3. repeat split. }
     pose proof (scheme_ok_fq c content oti Hfq Hacc' Hlen' Hl' He16 Hoti) as Hsok.
-    destruct (wire_facts_fq rep raptor_src c content oti toi Hfq Hacc' Hlen' Hl' Hw' Hrl Hrz' Hrs' Hoti)
+    destruct (wire_facts_fq rep raptor_src c content oti toi Hfq Hacc' Hlen' Hl' Hw' Hrl Hrz' Hrs' Hrp' Hoti)
       as (G & Z & _ & Rec & body & lst & Ew & Fb & Cl).
     change (rx_enc rep raptor_src c content) with enc in G.
     assert (T : Forall (fun p => a_toi p = toi) (wire_pkts_fq rep raptor_src c content toi)).
@@ -1348,7 +1387,7 @@ Proof.
   split; [exact junk_rep_len|]. split.
   { intros _. unfold rq_rep_sized, junk_rep. destruct (block_partitioning _ _ _) as [[[al as_] nal] n]. intros s _.
     repeat constructor. }
-  intros H; vm_compute in H; discriminate H.
+  split; intros H; vm_compute in H; discriminate H.
 Qed.
 
 Lemma exsp_sender_ok : sender_ok_fq junk_rep (chunk_rsrc 2) exs_cfg exs_now exsp_m ex16.
@@ -1363,7 +1402,7 @@ Proof.
   { split; [vm_compute; discriminate|]. split; [vm_compute; discriminate|].
     cbn [exsp_m FdtInst.m_cache]. apply exs_time_in_era; vm_compute; [discriminate|reflexivity]. }
   split; [exact junk_rep_len|]. split; [intros H; vm_compute in H; discriminate H|].
-  exact (exp_raptor_src_ok 1 false false).
+  split; [exact (exp_raptor_src_ok 1 false false)|exact (exp_syms_sized 1 false false)].
 Qed.
 
 Lemma exsq_doc_fits : doc_fits exs_cfg false exs_now exsq_m.
@@ -1518,6 +1557,10 @@ Proof.
   - intros _. replace (block_partitioning (c_b (exd_cfg closable)) (c_tlen (exd_cfg closable)) (c_e (exd_cfg closable)))
       with (4, 4, 0, 1) by (vm_compute; reflexivity).
     intros s Hs. assert (s = 0) by lia. subst s. eexists. split; [vm_compute; reflexivity|]. vm_compute. split; reflexivity.
+  - intros _. replace (block_partitioning (c_b (exd_cfg closable)) (c_tlen (exd_cfg closable)) (c_e (exd_cfg closable)))
+      with (4, 4, 0, 1) by (vm_compute; reflexivity).
+    intros s Hs. assert (s = 0) by lia. subst s.
+    apply Forall_forall. intros d Hd. apply N.leb_le. revert d Hd. apply forallb_forall. destruct closable; vm_compute; reflexivity.
   - reflexivity.
   - repeat split.
   - vm_compute. reflexivity.
@@ -1541,7 +1584,8 @@ Lemma fq_session_statements rep raptor_src cfg complete now m content E rcfg now
    /\ filedesc_accepts c = true
    /\ FdtInst.m_tlen m = lenN content /\ 0 < FdtInst.m_tlen m /\ m_toi m <> 0 /\ FdtInst.m_clen m < 18446744073709551616
    /\ time_in_era now /\ spec_expires now (c_dur cfg) < 4294967296 /\ meta_ok cfg now m
-   /\ rep_len_ok rep /\ rq_rep_sized rep c content /\ raptor_src_ok raptor_src c content)
+   /\ rep_len_ok rep /\ rq_rep_sized rep c content /\ raptor_src_ok raptor_src c content
+   /\ rp_syms_sized rep raptor_src c content)
   /\ (obj_roti_fq cfg m
       = mk_roti (match (if fec_id (used_oti cfg m) =? 1 then Raptor else RaptorQ) with Raptor => FRaptor | _ => FRaptorQ end)
                 (esl (used_oti cfg m)) (max_sbl (used_oti cfg m)) (parity (used_oti cfg m))
